@@ -30,6 +30,7 @@ type c01Env struct {
 	scratch  string
 	pool     *vx.ProcPool
 	inputs   []c01Input
+	stored   map[string]string // input name|ext -> scratch file with the bytes local storage must hold
 }
 
 type c01Part struct {
@@ -113,32 +114,72 @@ func c01SmudgeChunkings(full bool) []c01Chunking {
 // ---------------------------------------------------------------------------------------------------------
 // part: inproc
 
+// smudge class of a pointer delivered with chunking sm
+func c01SmudgeClass(ptr []byte, sm c01Chunking, ext string) string {
+	cl := "pointer-split-across-reads"
+	if fr := sm.firstRead(len(ptr)); fr > 0 && fr < len(ptr) && c01ImplParses(ptr[:fr]) {
+		cl = "pointer-cut-leaves-shorter-valid-pointer"
+	}
+	if ext != "" {
+		cl += ",ext=" + ext
+	}
+	return cl
+}
+
 func (e *c01Env) partInproc() c01Part {
 	run := func(x *vx.X) vx.Result {
 		in := e.inputs[x.In(len(e.inputs))]
 		n := len(in.Data)
 		ext := c01ExtKinds[x.In(len(c01ExtKinds))]
+		full := ext == "" || e.thorough // quick: extensions with a reduced working-tree / chunking product
 		wts := c01WTStates(n, c01WTLens)
+		if !full {
+			wts = c01WTStates(n, []int{0})
+			wts = wts[:len(wts)-1]
+		}
 		wt := wts[x.In(len(wts))]
 		chs := c01Chunkings(in)
+		if !full {
+			var k []c01Chunking
+			for _, c := range chs {
+				if len(c.Cuts) <= 1 {
+					k = append(k, c)
+				}
+			}
+			chs = k
+		}
 		ch := chs[x.In(len(chs))]
-		eof := x.In(2) == 1
+		eof := false
+		if full {
+			eof = x.In(2) == 1
+		}
 		plain := wt.Kind == "absent" && len(ch.Cuts) == 0 && ch.Every == 0 && !eof
 		pre := ""
 		if plain && ext == "" && n > 0 {
 			pre = []string{"", "present", "wrongsize"}[x.In(3)]
 		}
-		sm := []c01Chunking{{}}
-		if plain && pre == "" {
-			sm = c01SmudgeChunkings(in.Name == "bin4096" || in.Name == "look1025" || in.Name == "text1")
+		smChs := []c01Chunking{{}}
+		if plain && pre == "" && n > 0 {
+			smChs = c01SmudgeChunkings(in.Name == "bin4096" || in.Name == "look1025" || in.Name == "text1")
 		}
-		req := c01Req{Repo: ext, InputFile: in.File, Path: "f.bin", WT: wt, Ch: ch, EOFLast: eof, Pre: pre, Smudge: sm}
-		caseID := fmt.Sprintf("inproc input=%s ext=%q worktree=%s chunking=%s eof-with-last-read=%v store=%q", in.Name, ext, wt, ch, eof, pre)
+		sm := smChs[x.In(len(smChs))]
+		smSingle := len(sm.Cuts) == 0 && sm.Every == 0
+		req := c01Req{Repo: ext, InputFile: in.File, Path: "f.bin", WT: wt, Ch: ch, EOFLast: eof, Pre: pre}
+		if smSingle {
+			req.Smudge = []c01Chunking{{}}
+		}
+		caseID := fmt.Sprintf("inproc input=%s ext=%q worktree=%s chunking=%s eof-with-last-read=%v store=%q smudge-chunking=%s", in.Name, ext, wt, ch, eof, pre, sm)
 		r := vx.Result{Counters: map[string]int64{}, Sample: map[string]interface{}{"delivery": "in-process commands.clean/commands.smudge", "input": in.Name, "bytes": n,
-			"extension": ext, "worktree_file": wt.String(), "chunking": ch.String(), "eof_with_last_read": eof, "store_before": pre, "smudge_chunkings": len(sm)}}
+			"extension": ext, "worktree_file": wt.String(), "chunking": ch.String(), "eof_with_last_read": eof, "store_before": pre, "pointer_chunking_for_smudge": sm.String()}}
 		if n > 0 {
 			r.NonTrivial = []string{caseID}
 		}
+		cl := map[string]int64{}
+		defer func() {
+			for k, v := range cl {
+				r.Counters["clause:"+k] += v
+			}
+		}()
 		obs, died, inconcl, toolerr := c01Inproc(e.pool, req)
 		if inconcl != "" {
 			r.Inconcl = inconcl
@@ -153,8 +194,8 @@ func (e *c01Env) partInproc() c01Part {
 			class = "stored-object-has-wrong-size"
 		}
 		bucket := c01SizeBucket(n)
+		cl["filter-does-not-abort"]++
 		if died != "" {
-			r.Counters["clause:filter-does-not-abort"]++
 			if pre == "wrongsize" && strings.Contains(died, "Files don't match") {
 				// documented refusal: no pointer is emitted for a stored object of the wrong length
 				r.Outcome = "inproc/refused-files-dont-match/" + bucket
@@ -164,8 +205,6 @@ func (e *c01Env) partInproc() c01Part {
 			r.Violations = append(r.Violations, c01Viol(e.prop, &c01Fail{"filter-aborted", "git-lfs terminated the process instead of emitting a pointer / content:\n" + c01LastLines(died, 6)}, class, caseID, nil))
 			return r
 		}
-		r.Counters["clause:filter-does-not-abort"]++
-		cl := map[string]int64{}
 		var fail *c01Fail
 		branch := ""
 		if obs.CleanPanic != "" {
@@ -173,37 +212,50 @@ func (e *c01Env) partInproc() c01Part {
 		} else {
 			branch, fail = c01JudgeClean(ext, in.Data, obs.CleanOut, obs.Store, cl)
 		}
-		r.Evals = 1
-		if fail == nil {
-			for i, so := range obs.Smudges {
-				r.Evals++
-				if f := c01JudgeSmudge(in.Data, so, cl); f != nil {
-					sc := sm[i]
-					scClass := class
-					if len(sc.cutsFor(len(obs.CleanOut))) > 0 {
-						scClass = "pointer-split-across-reads"
-						if ext != "" {
-							scClass += ",ext=" + ext
-						}
-					}
-					f.Msg += fmt.Sprintf("\nsmudge input chunking: %s of the %d-byte pointer", sc, len(obs.CleanOut))
-					r.Violations = append(r.Violations, c01Viol(e.prop, f, scClass, caseID+" smudge-chunking="+sc.String(), map[string]interface{}{"pointer": string(obs.CleanOut)}))
-					fail = f
-					break
-				}
-			}
-		} else {
+		if fail != nil {
 			r.Violations = append(r.Violations, c01Viol(e.prop, fail, class, caseID, map[string]interface{}{"emitted": c01Short(obs.CleanOut), "store": obs.Store,
 				"bytes_consumed_from_stream": obs.Consumed, "reads": obs.Reads, "clean_error": obs.CleanErr, "stderr": obs.Stderr}))
-		}
-		for k, v := range cl {
-			r.Counters["clause:"+k] += v
+		} else if smSingle {
+			r.Evals = 2
+			if fail = c01JudgeSmudge(in.Data, obs.Smudges[0], cl); fail != nil {
+				r.Violations = append(r.Violations, c01Viol(e.prop, fail, class, caseID, map[string]interface{}{"pointer": string(obs.CleanOut), "store_after": obs.StoreAfter}))
+			}
+		} else {
+			// the emitted pointer handed to smudge in pieces (own request: a process exit is then attributable)
+			r.Evals = 2
+			smClass := c01SmudgeClass(obs.CleanOut, sm, ext)
+			sreq := c01Req{Repo: ext, InputFile: in.File, Path: "f.bin", WT: wt, NoClean: true, SmudgeSrc: obs.CleanOut, Smudge: []c01Chunking{sm}, PreStore: []string{e.stored[in.Name+"|"+ext]}}
+			sobs, sdied, sinc, sterr := c01Inproc(e.pool, sreq)
+			if sinc != "" {
+				r.Inconcl = sinc
+				return r
+			}
+			if sterr != "" {
+				r.ToolErr = sterr
+				return r
+			}
+			cl["filter-does-not-abort"]++
+			if sdied != "" {
+				fail = &c01Fail{"smudge-aborted", fmt.Sprintf("smudge of the emitted %d-byte pointer delivered as %s terminated the process:\n%s", len(obs.CleanOut), sm, c01LastLines(sdied, 6))}
+			} else if len(sobs.Smudges) != 1 {
+				r.ToolErr = "worker returned no smudge observation"
+				return r
+			} else {
+				fail = c01JudgeSmudge(in.Data, sobs.Smudges[0], cl)
+			}
+			if fail != nil {
+				r.Violations = append(r.Violations, c01Viol(e.prop, fail, smClass, caseID, map[string]interface{}{"pointer": string(obs.CleanOut), "first_read": c01Short(obs.CleanOut[:sm.firstRead(len(obs.CleanOut))]), "store_before_smudge": sobs.Store, "store_after_smudge": sobs.StoreAfter}))
+			}
 		}
 		res := "ok"
 		if fail != nil {
 			res = "FAIL-" + fail.Clause
 		}
-		r.Outcome = fmt.Sprintf("inproc/%s/%s/wt-%s/%s", branch, bucket, wt.relation(n), res)
+		smo := "smudge-1-read"
+		if !smSingle {
+			smo = "smudge-split"
+		}
+		r.Outcome = fmt.Sprintf("inproc/%s/%s/wt-%s/%s/%s", branch, bucket, wt.relation(n), smo, res)
 		return r
 	}
 	return c01Part{"inproc", run}
@@ -262,7 +314,7 @@ func c01SmudgeObsOf(out []byte, err string) c01SmudgeObs {
 // ---------------------------------------------------------------------------------------------------------
 // part: oneshot (real binary, real pipe, exact chunking)
 
-func (e *c01Env) oneshotChunkings(in c01Input, wt c01WT) []c01Chunking {
+func (e *c01Env) oneshotChunkings(in c01Input, wt c01WT, ext string) []c01Chunking {
 	n := len(in.Data)
 	if n <= 1 {
 		return []c01Chunking{{}}
@@ -273,6 +325,14 @@ func (e *c01Env) oneshotChunkings(in c01Input, wt c01WT) []c01Chunking {
 	cand := []int{1, 1023, 1024, 1025, 65516, n - 1}
 	if in.PtrEnd > 0 {
 		cand = append(cand, in.PtrEnd-1, in.PtrEnd, in.PtrEnd+1)
+	}
+	if !e.thorough && (wt.Kind != "absent" || ext != "") {
+		// quick: the full chunking set only without a file at the path and without extensions
+		c := []c01Chunking{{}, {Cuts: []int{1}}}
+		if n > 1024 {
+			c = append(c, c01Chunking{Cuts: []int{1024}})
+		}
+		return c
 	}
 	var r []c01Chunking
 	for _, c := range c01CutSets(n, cand) {
@@ -295,8 +355,11 @@ func (e *c01Env) partOneshot() c01Part {
 		ext := exts[x.In(len(exts))]
 		wts := c01WTStates(n, lens)
 		wts = wts[:len(wts)-1] // one "longer" state
+		if ext != "" && !e.thorough {
+			wts = wts[:1]
+		}
 		wt := wts[x.In(len(wts))]
-		chs := e.oneshotChunkings(in, wt)
+		chs := e.oneshotChunkings(in, wt, ext)
 		ch := chs[x.In(len(chs))]
 		plain := wt.Kind == "absent" && len(ch.Cuts) == 0 && ch.Every == 0
 		pre := ""
@@ -425,8 +488,14 @@ func (e *c01Env) partFilterProcess() c01Part {
 		ext := exts[x.In(len(exts))]
 		wts := c01WTStates(n, lens)
 		wts = wts[:len(wts)-1]
+		if ext != "" && !e.thorough {
+			wts = wts[:1]
+		}
 		wt := wts[x.In(len(wts))]
 		pks := c01PksFor(n)
+		if !e.thorough && !(wt.Kind == "absent" || (wt.Kind == "prefix" && wt.N == 0)) {
+			pks = []c01Pk{c01Packetisations[0], c01Packetisations[3]} // quick: all packetisations only without a file / with an empty file at the path
+		}
 		pk := pks[x.In(len(pks))]
 		caseID := fmt.Sprintf("filter-process input=%s ext=%q worktree=%s packets=%s", in.Name, ext, wt, pk.name)
 		r := vx.Result{Counters: map[string]int64{}, Sample: map[string]interface{}{"delivery": "real `git-lfs filter-process`, own pkt-line client: command=clean then command=smudge of the returned pointer in the same session",
@@ -514,8 +583,19 @@ func (e *c01Env) partGit() c01Part {
 		wt   c01WT // state at the named path when the filter runs (hash-object) / junk before checkout
 		add  bool
 	}
+	ins := e.inputs
+	if !e.thorough {
+		ins = nil
+		keep := map[string]bool{"empty": true, "bin1": true, "bin1023": true, "bin1024": true, "bin1025": true, "bin65517": true, "text1023": true, "text1024": true, "text1025": true, "text65516": true,
+			"zero4096": true, "look1023": true, "look1024": true, "look4096": true}
+		for _, in := range e.inputs {
+			if keep[in.Name] {
+				ins = append(ins, in)
+			}
+		}
+	}
 	run := func(x *vx.X) vx.Result {
-		in := e.inputs[x.In(len(e.inputs))]
+		in := ins[x.In(len(ins))]
 		n := len(in.Data)
 		process := x.In(2) == 0
 		ext := exts[x.In(len(exts))]
@@ -887,6 +967,19 @@ func c01Main(prop string) {
 		c08Describe(c, e)
 	} else {
 		e.inputs = c01WriteInputs(filepath.Join(scratch, "c01inputs"), c01Inputs(e.thorough))
+		e.stored = map[string]string{}
+		for i, in := range e.inputs {
+			for _, ext := range c01ExtKinds {
+				p := filepath.Join(scratch, "c01inputs", fmt.Sprintf("%03d.%s.stored", i, ext))
+				if ext == "" {
+					p = in.File
+				} else if err := os.WriteFile(p, c01ExpectFor(ext, in.Data).Stored, 0644); err != nil {
+					fmt.Println("TOOL-ERROR cannot write scratch file:", err)
+					os.Exit(2)
+				}
+				e.stored[in.Name+"|"+ext] = p
+			}
+		}
 		parts = []c01Part{e.partInproc(), e.partOneshot(), e.partFilterProcess(), e.partGit(), e.partMerge()}
 		c01Describe(c, e)
 	}
